@@ -16,6 +16,9 @@ def run(tier):
     # (1) bounded exhaustive model checking: big-natural layer and the word-serial algorithms (Tier A)
     run.mc("MC_BigNat", env={"BOUND": 16 if tier == "quick" else 64}, timeout=600)
     run.mc("MC_Params381", timeout=300)
+    # unbounded (TLAPS): Montgomery reduction is exact and lands in [0, 2p) for every radix, modulus and input below R p
+    t0 = __import__("time").time(); nob, _ = vlib.tlapm("RedcTheorem")
+    run.mc_runs.append({"module": "RedcTheorem", "role": "TLAPS proof (tlapm, Z3): RedcExact, RedcRange", "obligations_proved": nob, "wall_s": round(__import__("time").time() - t0, 1)})
     for cfg in (["MC_WordArith_w2n2", "MC_WordArith_w2n3"] if tier == "quick" else ["MC_WordArith_w2n2", "MC_WordArith_w2n3", "MC_WordArith_w3n2", "MC_WordArith_w4n2"]):
         run.mc("MC_WordArith", cfg + ".cfg", timeout=1500)
     # (2) G->I: TLC-generated cases replayed on the default build and the portable builds
